@@ -799,6 +799,36 @@ type BipartitionStats struct {
 	Err      error // Wether an error occured or not in the computation
 }
 
+// A branch as Compare and CompareWeighted see it
+type comparedEdge struct {
+	e        *Edge   // The branch (the first of the two for the root bipartition of a rooted tree)
+	length   float64 // Its length (the sum of the two lengths for the root bipartition of a rooted tree)
+	external bool    // True if one side of its bipartition is a single tip
+}
+
+// Lists the bipartitions of t, one per branch, except that the two branches under
+// the root of a rooted tree, which define the same bipartition, are listed once.
+func comparedEdges(t *Tree) []comparedEdge {
+	edges := t.Edges()
+	res := make([]comparedEdge, 0, len(edges))
+	rooted := t.Rooted()
+	rootidx := -1
+	for _, e := range edges {
+		if rooted && e.Left() == t.Root() {
+			if rootidx >= 0 {
+				if res[rootidx].length != NIL_LENGTH || e.Length() != NIL_LENGTH {
+					res[rootidx].length = lengthOrZero(res[rootidx].length) + lengthOrZero(e.Length())
+				}
+				res[rootidx].external = res[rootidx].external || e.Right().Tip()
+				continue
+			}
+			rootidx = len(res)
+		}
+		res = append(res, comparedEdge{e, e.Length(), e.Right().Tip()})
+	}
+	return res
+}
+
 // This function compares bipartitions of a reference tree with a set of trees given in the input channel.
 //
 // If tips is true, then comparison includes external branches. If comparetreeidentical is true, does not compute
@@ -810,7 +840,7 @@ type BipartitionStats struct {
 //
 // It First Initializes bitsets of the reference tree
 func Compare(refTree *Tree, compTrees <-chan Trees, tips, comparetreeidentical bool, cpus int) (<-chan BipartitionStats, error) {
-	var edges []*Edge
+	var edges []comparedEdge
 	var err error
 
 	stats := make(chan BipartitionStats)
@@ -821,12 +851,12 @@ func Compare(refTree *Tree, compTrees <-chan Trees, tips, comparetreeidentical b
 	if err = refTree.ReinitIndexes(); err != nil {
 		return nil, err
 	}
-	edges = refTree.Edges()
+	edges = comparedEdges(refTree)
 	index := NewEdgeIndex(uint64(len(edges)*2), 0.75)
 	total := 0
 	for i, e := range edges {
-		index.PutEdgeValue(e, i, e.Length())
-		if tips || !e.Right().Tip() {
+		index.PutEdgeValue(e.e, i, e.length)
+		if tips || !e.external {
 			total++
 		}
 	}
@@ -846,18 +876,18 @@ func Compare(refTree *Tree, compTrees <-chan Trees, tips, comparetreeidentical b
 				sametree := false
 				if inerr == nil {
 					if inerr = treeV.Tree.ReinitIndexes(); inerr == nil {
-						edges2 := treeV.Tree.Edges()
+						edges2 := comparedEdges(treeV.Tree)
 						verifGate("compare.mid1", cpu, treeV.Id)
 						verifGate("compare.mid2", cpu, treeV.Id)
 						if inerr = refTree.CompareTipIndexes(treeV.Tree); err == nil {
 							sametree = true
 							for _, e2 := range edges2 {
 								ok := true
-								if tips || !e2.Right().Tip() {
+								if tips || !e2.external {
 									total2++
 								}
-								if !e2.Right().Tip() {
-									_, ok = index.Value(e2)
+								if !e2.external {
+									_, ok = index.Value(e2.e)
 								}
 								if !ok {
 									sametree = false
@@ -865,7 +895,7 @@ func Compare(refTree *Tree, compTrees <-chan Trees, tips, comparetreeidentical b
 										break
 									}
 								}
-								if ok && (tips || !e2.Right().Tip()) {
+								if ok && (tips || !e2.external) {
 
 									common++
 								}
@@ -922,7 +952,7 @@ type WeightedBipartitionStats struct {
 // Since this function builds an edge index for the reference tree and the compared trees it will use about twice as much memory
 // as `Compare`, so if you do not need the branch length differences it will be more efficient to use `Compare` than `CompareWeighted`
 func CompareWeighted(refTree *Tree, compTrees <-chan Trees, tips, comparetreeidentical bool, cpus int) (<-chan WeightedBipartitionStats, error) {
-	var refEdges []*Edge
+	var refEdges []comparedEdge
 
 	var err error
 
@@ -936,10 +966,10 @@ func CompareWeighted(refTree *Tree, compTrees <-chan Trees, tips, comparetreeide
 	}
 
 	// Edge index of reference tree
-	refEdges = refTree.Edges()
+	refEdges = comparedEdges(refTree)
 	refIndex := NewEdgeIndex(uint64(len(refEdges)*2), 0.75)
 	for i, e := range refEdges {
-		refIndex.PutEdgeValue(e, i, e.Length())
+		refIndex.PutEdgeValue(e.e, i, e.length)
 	}
 
 	var wg sync.WaitGroup
@@ -962,10 +992,10 @@ func CompareWeighted(refTree *Tree, compTrees <-chan Trees, tips, comparetreeide
 					if inerr = treeV.Tree.ReinitIndexes(); inerr == nil {
 
 						// Edge index of compared tree
-						compEdges := treeV.Tree.Edges()
+						compEdges := comparedEdges(treeV.Tree)
 						compIndex := NewEdgeIndex(uint64(len(compEdges)*2), 0.75)
 						for i, e := range compEdges {
-							compIndex.PutEdgeValue(e, i, e.Length())
+							compIndex.PutEdgeValue(e.e, i, e.length)
 						}
 
 						verifGate("cmpw.mid1", cpu, treeV.Id)
@@ -976,11 +1006,11 @@ func CompareWeighted(refTree *Tree, compTrees <-chan Trees, tips, comparetreeide
 
 							// Check compared edges against reference index
 							for _, compEdge := range compEdges {
-								if tips || !compEdge.Right().Tip() {
-									refEdge, ok := refIndex.Value(compEdge)
+								if tips || !compEdge.external {
+									refEdge, ok := refIndex.Value(compEdge.e)
 									if ok { // Common edge
 										refLen := refEdge.Len
-										compLen := compEdge.Length()
+										compLen := compEdge.length
 										if refLen != compLen {
 											sametree = false
 											if comparetreeidentical {
@@ -995,22 +1025,22 @@ func CompareWeighted(refTree *Tree, compTrees <-chan Trees, tips, comparetreeide
 											break
 										}
 
-										Comp = append(Comp, compEdge.Length())
+										Comp = append(Comp, compEdge.length)
 									}
 								}
 							}
 
 							// Check reference edges against compared index
 							for _, refEdge := range refEdges {
-								if tips || !refEdge.Right().Tip() {
-									_, ok := compIndex.Value(refEdge)
+								if tips || !refEdge.external {
+									_, ok := compIndex.Value(refEdge.e)
 									if !ok { // Unique to reference tree
 										sametree = false
 										if comparetreeidentical {
 											break
 										}
 
-										Ref = append(Ref, refEdge.Length())
+										Ref = append(Ref, refEdge.length)
 									}
 								}
 							}
